@@ -1,8 +1,12 @@
 """C10 — reroot, cut and subset change the tree exactly as specified.
 
 Correspondence: navis' node table after the operation vs the Lean model (`f.reroot`, `f.cut`,
-`f.cutmany`, `f.subset`).  Oracle (independent of the model): the clauses of the property evaluated
-directly on the implementation's output."""
+`f.cutmany`, `f.subset`; second pass: the whole neuron state — nodes, connectors, tags, pinned soma — vs
+`c10x.prune` / `c10x.cutskel` / `c10x.rerootn` / `c10x.subsetn`, see harness/c10x.py).  Oracle: the clauses of
+the property evaluated directly on the implementation's output, by the proved-sound Lean checkers
+`rerootOKB` / `fragsOKB` / `subsetOKB` (`c10x.rerootok` / `fragsok` / `subsetok`) and independently in Python.
+
+`gen_cases(ctx, n)` / `RUNNERS[kind](ctx, case, be)` are also called by harness/c04.py under every back-end."""
 import warnings
 import numpy as np
 import pandas as pd
@@ -11,6 +15,7 @@ import networkx as nx
 warnings.filterwarnings('ignore')
 import navis
 from . import gen as G
+from . import c10x as X
 from .backends import backend
 
 navis.config.pbar_hide = True
@@ -258,9 +263,9 @@ def case_subset(ctx, case, be=None):
 # ---------------------------------------------------------------------------------------------
 def gen_cases(ctx, n_forests=None):
     r = ctx.rng
-    nf = n_forests or ctx.budget(120, 1500)
+    nf = n_forests or ctx.budget(110, 400)
     for k in range(nf):
-        rows, meta = G.rand_forest(r, nmax=10 if k % 3 == 0 else 30)
+        rows, meta = G.rand_forest(r, nmax=10 if k % 3 == 0 else 30, allow_zero_edges=(k % 7 == 3))
         ids = [rw['id'] for rw in rows]
         pm = {rw['id']: rw['parent'] for rw in rows}
         single = sum(1 for p in pm.values() if p < 0) == 1
@@ -282,15 +287,28 @@ def gen_cases(ctx, n_forests=None):
             yield ('subset', dict(rows=rows, keep=keep, form=form, seed=r.randrange(10 ** 9), meta=meta))
             if r.random() < 0.5:
                 yield ('subset', dict(rows=rows, keep=keep, form=r.choice(['list', 'array']), pf=True, seed=r.randrange(10 ** 9), meta=meta))
+        # second pass: method forms, cut front end, every reroot entry point, every subset form (harness/c10x.py)
+        yield from X.gen_for_forest(r, rows, meta, k)
 
 
 RUNNERS = {'reroot': case_reroot, 'cut': case_cut, 'subset': case_subset}
+RUNNERS.update(X.RUNNERS)
+# kinds whose code path depends on the graph back-end (harness/c04.py re-runs these under every back-end)
+BACKEND_STREAMS = {'reroot', 'cut', 'subset', 'prune', 'cutx', 'rerootx'}
 
 
 def run(ctx, be=None):
-    ctx.extra['rule'] = ('forests from harness/gen.py (13 shape classes × 6 labelings × 3 row orders, integer edge lengths); a case = '
-                         '(forest, operation, arguments); non-trivial when the forest has ≥ 3 nodes; distinct by JSON digest')
-    for kind, case in gen_cases(ctx):
+    ctx.extra['rule'] = ('forests from harness/gen.py (13 shape classes × 6 labelings × 3 row orders, integer edge lengths, every 7th with zero-length '
+                         'edges, every 9th with int32 id columns); a case = (forest, attachments (connectors, tags incl. a tag on several nodes, pinned soma), '
+                         'operation, entry point, arguments); streams: reroot / cut / subset (first pass), rerootx (function / method / root setter / '
+                         'NeuronList × in place or not × warm graph caches × ids / tags), cutx (ids / tags / mixed / duplicates × ret= × argument form × error '
+                         'cases), prune (prune_distal_to / prune_proximal_to with 1–3 nodes as list / array / tuple / tags, in place and not), subsetx (12 subset '
+                         'forms × prevent_fragments × keep_disc_cn × in place × NeuronList), misc (isolated node, leaf, TreeNeuron as subset, NeuronList + '
+                         'callable), plus a fixed cross product on an 11-node tree (all ordered pairs of non-root nodes through the prune methods and '
+                         'cut_skeleton, every node × 3 reroot entry points, every subset form × prevent_fragments); non-trivial when the forest has ≥ 3 '
+                         'nodes; distinct by JSON digest')
+    import itertools
+    for kind, case in itertools.chain(X.fixed_suite(), gen_cases(ctx)):
         c = dict(case, kind=kind)
         ctx.case(c, nontrivial=len(case['rows']) >= 3)
         m = case.get('meta', {})
@@ -304,7 +322,7 @@ def run(ctx, be=None):
 def exhaustive_small(ctx):
     """All rooted forests on ≤ 5 labelled nodes (parent functions without cycles) × every reroot target / cut node."""
     import itertools
-    cnt = 0
+    cnt = trees = pairs = 0
     for n in range(1, 6):
         for par in itertools.product(range(-1, n), repeat=n):
             ok = True
@@ -328,7 +346,24 @@ def exhaustive_small(ctx):
                         case = dict(rows=rows, cuts=[c], meta=dict(shape='exh'))
                         ctx.case(dict(case, kind='cut'), nontrivial=n >= 3)
                         case_cut(ctx, case)
-    ctx.extra['exhaustive_small_scope'] = f'all forests on ≤5 labelled nodes × all reroot targets / cut nodes: {cnt} reroots'
+                # second pass: every ordered pair of non-root nodes through the prune methods and cut_skeleton
+                # (all trees on ≤ 4 nodes, every 16th tree on 5 nodes)
+                trees += 1
+                if n <= 4 or trees % 16 == 0:
+                    nonroot = [c for c in range(1, n + 1) if par[c - 1] >= 0]
+                    att = dict(conn=[[100 + i, i, 'pre'] for i in range(1, n + 1)], tags={'t%d' % i: [i] for i in nonroot}, soma=None)
+                    for a in nonroot:
+                        for b in nonroot:
+                            if a == b:
+                                continue
+                            pairs += 1
+                            for kind, case in (('prune', dict(rows=rows, att=att, which='distal', nodes=[a, b], form=['list', 'array'][pairs % 2], inplace=bool(pairs % 3 == 0), meta=dict(shape='exh'))),
+                                               ('prune', dict(rows=rows, att=att, which='proximal', nodes=[a, b], form='list', inplace=False, meta=dict(shape='exh'))),
+                                               ('cutx', dict(rows=rows, att=att, where=[a, b], ret='both', form='list', meta=dict(shape='exh')))):
+                                ctx.case(dict(case, kind=kind), nontrivial=n >= 3)
+                                RUNNERS[kind](ctx, case, None)
+    ctx.extra['exhaustive_small_scope'] = (f'all forests on ≤5 labelled nodes × all reroot targets / cut nodes: {cnt} reroots; all trees on ≤4 nodes and every 16th '
+                                           f'tree on 5 nodes × all ordered pairs of non-root nodes × (prune_distal_to, prune_proximal_to, cut_skeleton): {pairs} pairs')
 
 
 def replay(ctx, rp):
